@@ -23,16 +23,16 @@ def trace(func: F) -> F:
 
     @wraps(func)
     def wrapper(*args: Any, **kwargs: Any) -> ReturnType:
-        print(f'Trace: {datetime.now()} calling {getattr(func, "__name__", repr(func))}()  with {args}, {kwargs}')
+        print(f'Trace: {datetime.now()} calling {func.__name__ if hasattr(func, "__name__") else repr(func)}()  with {args}, {kwargs}')
         original_result = func(*args, **kwargs)
-        print(f'Trace: {datetime.now()} {getattr(func, "__name__", repr(func))}() returned {original_result!r}')
+        print(f'Trace: {datetime.now()} {func.__name__ if hasattr(func, "__name__") else repr(func)}() returned {original_result!r}')
         return original_result
 
     @wraps(func)
     async def async_wrapper(*args: Any, **kwargs: Any) -> ReturnType:
-        print(f'Trace: {datetime.now()} calling {getattr(func, "__name__", repr(func))}()  with {args}, {kwargs}')
+        print(f'Trace: {datetime.now()} calling {func.__name__ if hasattr(func, "__name__") else repr(func)}()  with {args}, {kwargs}')
         original_result = await func(*args, **kwargs)
-        print(f'Trace: {datetime.now()} {getattr(func, "__name__", repr(func))}() returned {original_result!r}')
+        print(f'Trace: {datetime.now()} {func.__name__ if hasattr(func, "__name__") else repr(func)}() returned {original_result!r}')
         return original_result
 
     if inspect.iscoroutinefunction(func):
